@@ -39,8 +39,13 @@ def cases(draw):
     data = draw(st.sampled_from(["sinlin", "sinlin", "lin", "drawn"]))
     ops = []
     for _ in range(draw(st.integers(1, 30))):
-        kind = draw(st.sampled_from(["grow", "grow", "replace", "replace", "replace", "shift", "shiftv"]))
+        kind = draw(st.sampled_from(["grow", "grow", "replace", "replace", "replace", "shift", "shiftv", "sample"]))
         op = {"op": kind}
+        if kind == "sample":
+            # one more (noisy) sample at a stored point: the stored residual becomes the running mean, sample counts become unequal,
+            # the incumbent may move - the next fit must still be the plain interpolant / least-squares fit of the stored means
+            op["k"] = draw(st.integers(0, 12))
+            op["dr"] = [draw(sc.g8) / 4.0 for _ in range(m)]
         if kind in ("grow", "replace"):
             op["s"] = [draw(sc.g8) / 4.0 for _ in range(n)]
             op["from_xopt"] = draw(st.booleans())
@@ -201,6 +206,13 @@ def _run(case):
             flags["last_shift"] = False
             flags["steps"] += 1
             ok = check(step, kind)
+        elif kind == "sample":
+            k = op["k"] % cur
+            mdl.add_new_sample(k, rvec_extra=mdl.fval_v[k, :] + np.array(op["dr"], dtype=float) * (1.0 + float(np.max(np.abs(mdl.fval_v[k, :])))))
+            flags["last_shift"] = False
+            flags["steps"] += 1
+            flags["samples"] = flags.get("samples", 0) + 1
+            ok = check(step, "sample")
         else:
             if cur < 2:
                 continue
@@ -242,6 +254,8 @@ def _run(case):
         res.classes.append("regression")
     if mdl.npt() < n + 1:
         res.classes.append("ended-growing")
+    if flags.get("samples"):
+        res.classes.append("resampled")
     if flags["shifts"] >= 2:
         res.classes.append("two-shifts")
     if flags["shift_then_replace"]:
